@@ -15,10 +15,13 @@
     blocks, the packed tail word, `next` links, `old_block`, the spsc block cache. It is what the driver replays against
     traces of the real code. Its step function advances the level-A state as a ghost component (`step` calls
     `MpscA.tstep` on the level-A action the concrete step stands for) and raises `simBad` if that action is not
-    enabled or the program counters do not correspond. NOT PROVED YET: `simBad` is never raised (the refinement
-    B ⊑ A) and block safety; they are CHECKED on every replayed trace (executable simulation check: `simBad`,
-    `uaf`, `dfree`, `panic`, the level-A flags and the state correspondence of `MpscReplay.relOk` after every event).
-    The statements are kept visible at the end of this file.
+    enabled or the program counters do not correspond. PROVED for both queues (sections "level B" below): `simBad` is
+    never raised (B ⊑ A: every level-B step is a level-A step or a stutter, refinement map slot i ↦ (block i / B,
+    i % B) for mpsc, the ghost block chain for spsc), so the level-A theorems transfer to the replayed model; and block
+    safety (no use after free, no double free, Drop's assertions, non-null `next` at both `wait_next_block` spins,
+    spsc: Drop frees everything, a recycled block is never one the consumer can still read). The same facts are also
+    CHECKED on every replayed trace of the real code (`simBad`, `uaf`, `dfree`, `panic`, the level-A flags and the
+    state correspondence `relOk` after every event).
   * Bit level: `pack / unpack / closing bit` of the packed tail word over `BitVec 64`, instantiated at the constants
     `tools/extract_consts_mpsc.py` regenerates from the source on every run.
 -/
@@ -29,6 +32,8 @@ import MayVerif.Proof.Queue.MpscBits
 import MayVerif.Generated.ConstsMpsc
 import MayVerif.Model.Queue.Mpsc
 import MayVerif.Model.Queue.Spsc
+import MayVerif.Proof.Queue.Spsc.Step
+import MayVerif.Proof.Queue.Mpsc.Step
 namespace MayVerif.C03
 open MayVerif
 
@@ -271,6 +276,119 @@ example : ∃ s', step (run (init 2) wSpsc) (.cons .go) = some s' ∧ s'.cp = .r
 
 end spsc
 
+/-! ## mpsc, level B (`Model/Queue/Mpsc.lean`): the per-atomic-operation model that is replayed against the code -/
+section mpscB
+open MayVerif.Mpsc
+
+/-- **B ⊑ A**: every step of the block-level model (heap blocks, packed tail word with the closing bit, `next`
+    links, `old_block`, the `.aba` branch of the CAS) is a step of level A or a stutter under the refinement map
+    `slot i ↦ (block i / B, i % B)`, and the level-A program counters – which carry the responses of the operations –
+    are the projections of the concrete ones. Any block size `B > 0`, any number of actors, any schedule. -/
+theorem mpscB_refines_A (B n : Nat) (hB : 0 < B) (sched : List (Tid × Env)) :
+    (run (init B n) sched).sh.simBad = false ∧
+    ∀ t, (run (init B n) sched).apcs t = proj (run (init B n) sched).sh ((run (init B n) sched).pcs t) :=
+  ⟨reach_refines_A B n hB sched, reach_apcs B n hB sched⟩
+
+/-- hence the level-A theorems hold of the replayed model: no response disagrees with the abstract FIFO, and every
+    linearized push is handed out exactly once, in order -/
+theorem mpscB_refines_fifo (B n : Nat) (hB : 0 < B) (sched : List (Tid × Env)) :
+    (run (init B n) sched).sh.a.badNone = false ∧ (run (init B n) sched).sh.a.badVal = false ∧
+    (run (init B n) sched).sh.a.badLen = false ∧
+    (run (init B n) sched).sh.a.pushed.map (fun p => p.2.2) =
+      (run (init B n) sched).sh.a.popped ++ (run (init B n) sched).sh.a.A :=
+  have h := reach_A_inv B n hB sched
+  ⟨h.noBadNone, h.noBadVal, h.noBadLen, h.exactly_once⟩
+
+/-- **Block safety**: no step touches a block that is not allocated (delaying the free through `old_block` is long
+    enough for the closer's `wait_next_block` and for every producer that still has to write its slot), no block is
+    freed twice, and the assertions of `Drop` (`block == head`, `next` non-null) hold. -/
+theorem mpsc_block_safe (B n : Nat) (hB : 0 < B) (sched : List (Tid × Env)) :
+    (run (init B n) sched).sh.uaf = false ∧ (run (init B n) sched).sh.dfree = false ∧
+    (run (init B n) sched).sh.panic = false :=
+  reach_block_safe B n hB sched
+
+/-- **Both `wait_next_block` spins find a non-null `next` at once**: the closer's (`next` of the block it closed)
+    and the consumer's (`next` of the block it just finished). -/
+theorem mpsc_wait_next_block_immediate (B n : Nat) (hB : 0 < B) (sched : List (Tid × Env)) :
+    (∀ (t : Tid) (b nn : Bid), (run (init B n) sched).pcs t = .pWait b nn → (run (init B n) sched).sh.next b = some (b + 1)) ∧
+    (∀ (t : Tid) (hb : Bid) (k : K), (run (init B n) sched).pcs t = .rNext hb k →
+      (run (init B n) sched).sh.next hb = some (hb + 1)) :=
+  reach_wait_free_spins B n hB sched
+
+/-! non-vacuity (block size 2, consumer 0 and producer 1) -/
+def G (t n : Nat) (e : Env) : List (Tid × Env) := (t, e) :: List.replicate n (t, .go)
+
+/-- new; push 7; push 8 by actor 1 up to its closing CAS and slot write, the block allocation and the `next` load –
+    the closer now sits in `wait_next_block` of block 0 while the consumer pops 7 and 8, finishes block 0 and moves it
+    to `old_block` (the block stays allocated) -/
+def wCloser : List (Tid × Env) :=
+  G 0 4 .new ++ G 1 4 (.push 7) ++ G 1 4 (.push 8) ++ G 0 5 .pop ++ G 0 7 .pop
+
+example : (run (init 2 2) wCloser).pcs 1 = .pWait 0 2 ∧ (run (init 2 2) wCloser).sh.tail = ⟨0, 1, true⟩ ∧
+    (run (init 2 2) wCloser).sh.old = some 0 ∧ (run (init 2 2) wCloser).sh.headBlk = 1 ∧
+    (run (init 2 2) wCloser).sh.live 0 = true ∧ (run (init 2 2) wCloser).sh.a.popped = [7, 8] ∧
+    (run (init 2 2) wCloser).sh.next 0 = some 1 := by decide
+
+end mpscB
+
+/-! ## spsc, level B (`Model/Queue/Spsc.lean`): the per-atomic-operation model that is replayed against the code -/
+section spscB
+open MayVerif.Spsc
+
+/-- **B ⊑ A**: every step of the block-level model (heap blocks, `next` links, the block cache `first / last_head`
+    with the racy read of `head.block`) is a step of level A or a stutter, and the level-A program counters – which
+    carry the responses of the operations – are the projections of the concrete ones. -/
+theorem spscB_refines_A (B : Nat) (hB : 0 < B) (sched : List Act) :
+    (run (init B) sched).sh.simBad = false ∧
+    (run (init B) sched).app = projP (run (init B) sched).pp ∧ (run (init B) sched).acp = projC (run (init B) sched).cp :=
+  ⟨reach_refines_A B hB sched, reach_proj B hB sched⟩
+
+/-- hence the level-A theorems hold of the replayed model: no response disagrees with the abstract FIFO, strict FIFO
+    hand-out, exactly once; and the concrete indices are the level-A indices -/
+theorem spscB_refines_fifo (B : Nat) (hB : 0 < B) (sched : List Act) :
+    (run (init B) sched).sh.a.badNone = false ∧ (run (init B) sched).sh.a.badVal = false ∧
+    (run (init B) sched).sh.a.badLen = false ∧
+    (run (init B) sched).sh.a.pushed = (run (init B) sched).sh.a.popped ++ (run (init B) sched).sh.a.A ∧
+    (run (init B) sched).sh.a.tail = (run (init B) sched).sh.tailIdx ∧
+    (run (init B) sched).sh.a.head = (run (init B) sched).sh.headIdx :=
+  have h := reach_A_inv B hB sched
+  ⟨h.noBadNone, h.noBadVal, h.noBadLen, h.exactly_once, (reach_idx B hB sched).1, (reach_idx B hB sched).2⟩
+
+/-- **Block safety**: no step touches a block that is not allocated – in particular a block handed out again by
+    `alloc_node` is never one the consumer can still read –, no block is freed twice, no null `next` is followed and
+    the `assert_eq!(head, tail)` of `Drop` holds. -/
+theorem spsc_block_safe (B : Nat) (hB : 0 < B) (sched : List Act) :
+    (run (init B) sched).sh.uaf = false ∧ (run (init B) sched).sh.dfree = false ∧ (run (init B) sched).sh.panic = false :=
+  reach_block_safe B hB sched
+
+/-- **Drop frees every block exactly once** (no double free by `spsc_block_safe`, no leak): after `Drop` has returned
+    no block is allocated. -/
+theorem spsc_drop_frees_all (B : Nat) (hB : 0 < B) (sched : List Act)
+    (hc : (run (init B) sched).sh.created = true) (ha : (run (init B) sched).sh.alive = false)
+    (hi : (run (init B) sched).cp = .idle) : ∀ b, (run (init B) sched).sh.live b = false :=
+  reach_drop_frees_all B hB sched hc ha hi
+
+/-! non-vacuity (block size 2) -/
+def P (n : Nat) (e : Env) : List Act := .prod e :: List.replicate n (.prod .go)
+def C (n : Nat) (e : Env) : List Act := .cons e :: List.replicate n (.cons .go)
+
+/-- new; push 1; push 2 (block full → fresh block 1); pop; pop (head moves to block 1); push 3; push 4 (block full →
+    `alloc_node` re-reads `head.block` and RECYCLES block 0 as the new tail block) -/
+def wRecycle : List Act :=
+  C 2 .new ++ P 4 (.push 1) ++ P 11 (.push 2) ++ C 5 .pop ++ C 7 .pop ++ P 4 (.push 3) ++ P 12 (.push 4)
+
+example : (run (init 2) wRecycle).sh.nb = 2 ∧ (run (init 2) wRecycle).sh.tailBlk = 0 ∧ (run (init 2) wRecycle).sh.headBlk = 1 ∧
+    (run (init 2) wRecycle).sh.tailIdx = 4 ∧ (run (init 2) wRecycle).sh.a.A = [3, 4] ∧
+    (run (init 2) wRecycle).sh.a.popped = [1, 2] := by decide
+
+/-- … then a bulk_pop and `Drop`: everything is freed (hypotheses of `spsc_drop_frees_all`) -/
+example : (run (init 2) (wRecycle ++ C 7 .bulk ++ C 20 .drop)).sh.created = true ∧
+    (run (init 2) (wRecycle ++ C 7 .bulk ++ C 20 .drop)).sh.alive = false ∧
+    (run (init 2) (wRecycle ++ C 7 .bulk ++ C 20 .drop)).cp = .idle ∧
+    (run (init 2) (wRecycle ++ C 7 .bulk ++ C 20 .drop)).sh.a.popped = [1, 2, 3, 4] := by decide
+
+end spscB
+
 /-! ## bit level: the packed tail word at the constants generated from `mpsc.rs` -/
 section bits
 open MayVerif.MpscBits MayVerif.ConstsMpsc
@@ -341,24 +459,11 @@ example : unpackPtr mask (pack 0x7f00_0000_1240#64 63#64) = 0x7f00_0000_1240#64 
 end bits
 
 /-
-  ## level B (statements kept visible; checked on every replayed trace, not proved)
-
-  theorem mpscB_refines_A (n : Nat) (sched : List (Tid × Mpsc.Env)) :
-      (Mpsc.run (Mpsc.init MPSC_BLOCK_SIZE n) sched).sh.simBad = false
-        -- every step of the per-atomic-operation model is a step of level A or a stutter (refinement map
-        -- slot i ↦ (block i / B, i % B)), so the level-A theorems above transfer to the replayed model
-
-  theorem spscB_refines_A (sched : List Spsc.Act) : (Spsc.run (Spsc.init SPSC_BLOCK_SIZE) sched).sh.simBad = false
-  theorem spsc_block_safe (sched : List Spsc.Act) :
-      (Spsc.run (Spsc.init B) sched).sh.uaf = false ∧ … .dfree = false ∧ … .panic = false
-        -- in particular: a block handed out by `alloc_node` (recycled through first / last_head and the racy read
-        -- of head.block) is never one the consumer can still read, `Drop` frees every block exactly once
-
-  theorem mpsc_block_safe (n : Nat) (sched : List (Tid × Mpsc.Env)) :
-      (Mpsc.run (Mpsc.init B n) sched).sh.uaf = false ∧ (Mpsc.run (Mpsc.init B n) sched).sh.dfree = false ∧
-      (Mpsc.run (Mpsc.init B n) sched).sh.panic = false
-        -- no step touches a freed block (old_block delays the free long enough), no block is freed twice, the
-        -- assertions of Drop hold; both `wait_next_block` spins always find a non-null `next`
+  Not covered by a theorem (kept visible):
+  * mpsc: "after `Drop` has returned no block is allocated" (no leak) is proved for spsc (`spsc_drop_frees_all`) but for
+    mpsc only checked on every replayed trace (`atEnd` of the replay machine); no double free IS proved (`mpsc_block_safe`).
+  * adversarial address reuse is a model transition (`Env.aba`, covered by `mpscB_refines_A`), but the replayed traces do
+    not exercise it (block tokens of the trace are generation-unique).
 -/
 
 end MayVerif.C03
